@@ -21,6 +21,7 @@ def shards(tier, seed):
     n = 140 if tier == "quick" else 2500
     out = [{"name": f"cal:{cid}", "part": "cal", "cal": cid, "n": n} for cid in CalendarSystem.ids]
     out += [{"name": f"misc:{i}", "part": "misc", "n": 2500 if tier == "quick" else 40000} for i in range(2 if tier == "quick" else 8)]
+    out += [{"name": f"cross-calendar:{i}", "part": "cross", "n": 150 if tier == "quick" else 3000} for i in range(1 if tier == "quick" else 4)]
     return out
 
 
@@ -444,7 +445,53 @@ def run_misc(ctx, n):
         ctx.counters.setdefault(k, 0)
 
 
+def run_cross(ctx, n):
+    """The same (year, month, day) numbers and the same amount asked of several calendars one after the other in one process: each answer is
+    the one that calendar gives when asked alone (the period-field objects are shared by all calendars)."""
+    from pyoda_time import LocalDate, Period, PeriodUnits
+    from vf import gen
+    rng = ctx.rng
+    cals = [c for c in gen.calendars()]
+    for _ in range(n):
+        y = rng.choice([1896, 2023, 1400, 5784, 100, rng.randint(1, 9000)]); m = rng.choice([2, 2, 12, 13, 1, 6, 7]); d = rng.choice([29, 30, 28, 1, 5, 6, 31])
+        amt = rng.choice([4, 1, -1, 100, -4, 12, 13, rng.randint(-30, 30)])
+        order = rng.sample(cals, min(len(cals), 6))
+        for unit, fn in (("years", lambda x: x.plus_years(amt)), ("months", lambda x: x.plus_months(amt)), ("period-years", lambda x: x + Period.from_years(amt))):
+            alone = {}
+            for cal in order:       # reference: asked directly after a neutral call in the SAME calendar (whatever a memo holds is this calendar's)
+                try:
+                    x = LocalDate(y, m, d, cal)
+                except Exception:  # noqa: BLE001
+                    continue
+                try:
+                    fn(LocalDate((cal.min_year + cal.max_year) // 2, 1, 1, cal))
+                except Exception as e:  # noqa: BLE001
+                    ctx.exc(e)
+                try:
+                    r_ = fn(x); alone[cal.id] = gen.ymd(r_) + (gen.day_of(r_),)
+                except Exception as e:  # noqa: BLE001
+                    alone[cal.id] = ("raised", type(e).__name__)
+            for rounds in range(2):  # now back to back across calendars, twice, in seeded order
+                for cal in order:
+                    if cal.id not in alone: continue
+                    x = LocalDate(y, m, d, cal)
+                    ctx.ev(); ctx.count("cross_calendar_additions"); ctx.key(("cross", unit, cal.id))
+                    try:
+                        r_ = fn(x); got = gen.ymd(r_) + (gen.day_of(r_),)
+                        if r_.calendar is not cal or gen.ymd(gen.date_of(gen.day_of(r_), cal)) != gen.ymd(r_): got = ("invalid-date", gen.ymd(r_))
+                    except Exception as e:  # noqa: BLE001
+                        got = ("raised", type(e).__name__)
+                    if got != alone[cal.id]:
+                        ctx.V(f"C09:cross-calendar-{unit}", f"{cal.id} {y}-{m}-{d} {unit} {amt:+d} gives {got} right after the same question was put to another calendar; asked within its own calendar it gives {alone[cal.id]}",
+                              {"kind": "cross", "cal": cal.id, "ymd": [y, m, d], "amt": amt, "unit": unit}, got, alone[cal.id])
+    ctx.sample({"kind": "cross", "n": n})
+    for k in REQUIRED["any"]:
+        ctx.counters.setdefault(k, 0)
+
+
 def run(ctx, shard):
+    if shard["part"] == "cross":
+        run_cross(ctx, shard["n"]); return
     if shard["part"] == "cal":
         run_cal(ctx, shard["cal"], shard["n"])
     else:
